@@ -59,6 +59,7 @@ class Contract:
         self.recursive_ok = True
         self.normal_cases = None
         self.verify_body = True
+        self.spec_facts = False     # assume the ensures also when the call occurs inside a specification
         self.predicate_ = None      # (ghost predicate name, [param names]): "this call returns normally"
 
     # fluent API ---------------------------------------------------------------------------------------------
